@@ -445,3 +445,10 @@ def x6(cx: Cx, ob: Ob) -> None:
     from .c02 import none_scope
 
     scan_none_discipline(cx, ob, none_scope(cx))
+
+
+@obligation("C17-X12", "def-use lints over the files this property is anchored in (api.py, resolver_service.py): no one-shot iterator (generator expression, map, filter, zip, iter, reversed, enumerate, generator call) bound to a name is consumed twice or inside a loop that starts after its creation; no mutable default argument is mutated, stored or returned", floor=1)
+def x12(cx: Cx, ob: Ob) -> None:
+    from ..rules import package_lints
+
+    package_lints(cx, ob, {'api.py', 'resolver_service.py'})
